@@ -1380,7 +1380,24 @@ var vViolations = []string{"no-did-context", "vm-no-fragment", "vm-duplicate-id"
 	"vm-secp-type-thumbprint-mismatch", "vm-unknown-type-thumbprint-mismatch", "vm-ed25519-type-jwk-mismatch", "vm-ed25519-base58-no-jwk",
 	"vm-keyswap-known-id-other-type", "vm-foreign-prefix-and-controller", "vm-foreign-prefix-and-controller-capinv", "vm-known-did-prefix-and-controller", "vm-null-entry", "rel-null-entry", "rel-empty-string-entry",
 	"vm-relative-id", "vm-relative-id-capinv", "vm-relative-id-query", "vm-relative-id-path", "svc-relative-id", "svc-relative-id-query", "svc-relative-id-path",
-	"svc-duplicate-type-padded", "svc-duplicate-type-padded-lead", "svc-duplicate-type-tab", "svc-duplicate-type-third", "svc-duplicate-type-upper"}
+	"svc-duplicate-type-padded", "svc-duplicate-type-padded-lead", "svc-duplicate-type-tab", "svc-duplicate-type-third", "svc-duplicate-type-upper",
+	// wave 9: the id fragment is another base64url SPELLING of the key's thumbprint (the last of the 43 characters carries 4 data bits; the
+	// 2 trailing bits are ignored by a lenient decoder): the same 32 bytes, but not the thumbprint text
+	"vm-thumbprint-noncanonical-1", "vm-thumbprint-noncanonical-2", "vm-thumbprint-noncanonical-3", "vm-thumbprint-noncanonical-and-canonical", "vm-thumbprint-trailing-newline"}
+
+const vB64Alphabet = "ABCDEFGHIJKLMNOPQRSTUVWXYZabcdefghijklmnopqrstuvwxyz0123456789-_"
+
+// another base64url spelling of the same bytes: the last character moved n (1..3) places on in the alphabet (unused trailing bits set)
+func vNonCanonical(b64 string, n int) string {
+	if b64 == "" {
+		return b64
+	}
+	i := strings.IndexByte(vB64Alphabet, b64[len(b64)-1])
+	if i < 0 {
+		return b64 + "A"
+	}
+	return b64[:len(b64)-1] + string(vB64Alphabet[(i/4)*4+(i%4+n)%4])
+}
 
 func (g *vGen) violate(which string, s *vDocSpec) {
 	other := "did:nuts:" + g.keys[0].b58
@@ -1403,6 +1420,15 @@ func (g *vGen) violate(which string, s *vDocSpec) {
 	case "vm-thumbprint-mismatch":
 		k, k2 := g.freshKey(), g.freshKey()
 		s.VMs = append(s.VMs, vVMSpec{ID: s.ID + "#" + k2.b64, Key: k})
+	case "vm-thumbprint-noncanonical-1", "vm-thumbprint-noncanonical-2", "vm-thumbprint-noncanonical-3":
+		k := g.freshKey()
+		s.VMs = append(s.VMs, vVMSpec{ID: s.ID + "#" + vNonCanonical(k.b64, int(which[len(which)-1]-'0')), Key: k})
+	case "vm-thumbprint-noncanonical-and-canonical": // one key under two "unique" ids
+		k := g.freshKey()
+		s.VMs = append(s.VMs, vVMSpec{ID: s.ID + "#" + k.b64, Key: k}, vVMSpec{ID: s.ID + "#" + vNonCanonical(k.b64, 1+g.rng.Intn(3)), Key: k})
+	case "vm-thumbprint-trailing-newline": // a lenient decoder also skips CR / LF
+		k := g.freshKey()
+		s.VMs = append(s.VMs, vVMSpec{ID: s.ID + "#" + k.b64 + "%0A", Key: k})
 	case "vm-bad-jwk":
 		k := g.freshKey()
 		s.VMs = append(s.VMs, vVMSpec{ID: s.ID + "#" + k.b64, RawJwk: map[string]interface{}{"kty": "EC", "crv": "P-256"}})
